@@ -447,7 +447,10 @@ def div_literals(expr, fp_arithmetic=False):
         denominator = sym.IntLiteral(expr.denominator.value / div)
 
     elif isinstance(expr.numerator, sym.Product):
-        value, _, remaining_components = separate_coefficients(expr.numerator, fp_arithmetic=fp_arithmetic)
+        value, has_float, remaining_components = separate_coefficients(expr.numerator, fp_arithmetic=fp_arithmetic)
+        if has_float:
+            # No common integer divisor with a floating point coefficient
+            return expr
         div = gcd(value, expr.denominator.value)
         numerator = mul_literals(
             sym.Product((sym.IntLiteral(value / div), *remaining_components)), fp_arithmetic=fp_arithmetic
